@@ -664,7 +664,8 @@ def detect_fixes():
         _FIXES[REPO] = dict(d18="_livepatch__bases(" in klass,
                             d41="setattr(oldobj, name, getattr(newobj, name))" in src,
                             d44='"__weakref__"' in klass.split("_livepatch__bases")[0] or "'__weakref__'" in klass.split("_livepatch__bases")[0],
-                            d45="cell_contents = " in src)
+                            d45="cell_contents = " in src,
+                            d52="old_modname = _get_definition_module(old)" in src)
     return _FIXES[REPO]
 
 
@@ -778,6 +779,9 @@ class C16(Prop):
         os.mkdir(fdir)
         obs = dict(trivial=None)
         sys.path.insert(0, d)
+        for en, es in gen_c16.EXT_SOURCES.items():
+            with open(os.path.join(d, en + ".py"), "w") as f:
+                f.write(es)
         t0 = 1_700_000_000
         try:
             old_text = gen_c16.source(case["old"])
@@ -821,6 +825,10 @@ class C16(Prop):
             old_shapes = {n: shape(md[n], name) for n in pubs}
             for q, v in cap_methods.items():
                 old_shapes[q] = shape(v.__func__ if isinstance(v, types.MethodType) else v, name)
+            foreign = {n: md[n] for n in pubs if isinstance(md[n], (types.FunctionType, type))
+                       and getattr(md[n], "__module__", name) != name and getattr(md[n], "__module__", "").startswith("c16ext")}
+            foreign_before = {n: (id(v.__code__) if isinstance(v, types.FunctionType) else sorted((k, id(x)) for k, x in v.__dict__.items()))
+                              for n, v in foreign.items()}
             snap_before, keep = snapshot(m, name)
             keys_before = {k: id(v) for k, v in md.items()}
             sysmod_before = sys.modules.get(name)
@@ -886,6 +894,9 @@ class C16(Prop):
             kinfo["unsupported"] = sorted(set(ab.unsupported))
             obs["k"] = kinfo
             obs["sysmod_same"] = sys.modules.get(name) is sysmod_before and sysmod_before is m
+            foreign_after = {n: (id(v.__code__) if isinstance(v, types.FunctionType) else sorted((k, id(x)) for k, x in v.__dict__.items()))
+                             for n, v in foreign.items()}
+            obs["foreign_modified"] = sorted(n for n in foreign if foreign_before[n] != foreign_after[n])
             if obs["exec_fails"] is not None:
                 # ---- rollback facts ------------------------------------------------
                 snap_after, keep2 = snapshot(m, name)
@@ -1004,6 +1015,8 @@ class C16(Prop):
             except ValueError:
                 pass
             sys.modules.pop(name, None)
+            for en in gen_c16.EXT_SOURCES:
+                sys.modules.pop(en, None)
             for k in [k for k in linecache.cache if k.startswith(d)]:
                 linecache.cache.pop(k, None)
             shutil.rmtree(d, ignore_errors=True)
@@ -1041,6 +1054,9 @@ class C16(Prop):
                          msg=obs.get("raised_msg"), **brief)]
         if not obs["sysmod_same"]:
             fails.append(dict(what="sys.modules entry is not the old module after a successful reload", **brief))
+        if obs.get("foreign_modified"):
+            fails.append(dict(what="an object that belongs to another module was modified by the reload",
+                              names=obs["foreign_modified"], **brief))
         # names
         if obs["names_post"] != obs["names_fresh"]:
             fails.append(dict(what="names differ from a fresh import", got=obs["names_post"], want=obs["names_fresh"], **brief))
@@ -1328,6 +1344,7 @@ C16.families = {
     "method_kind_changed": C16._fam_kind,
     "aliasing_changed_between_versions": C16._fam_alias,
     "slots_instance_partially_synced": C16._fam_slots_mixed,
+    "object_of_another_module_modified": (lambda case, f: f.get("what", "").startswith("an object that belongs to another module")),
     "slots_instance_setattr_typeerror": C16._fam_raise("setattr expected 3 arguments"),
     "class_dict_descriptor_not_writable": C16._fam_raise("attribute '__dict__' of 'type' objects is not writable"),
     "bases_assignment_layout": C16._fam_raise("__bases__ assignment"),
